@@ -381,6 +381,45 @@ fn any_solution<'a>(segs: &'a [InputSegment<'a, ZEntry>; 3]) -> PathSolution<'a,
     PathSolution { edges, current_vertex: Vertex::AS(IsdAsn(0)), cost: kani::any() }
 }
 
+/// Pairwise key laws of the comparator on solutions with <= 1 edge each (round 3 decomposition of
+/// the triple harness below, which needs > 55 GB): reflexive, antisymmetric, primary key = cost,
+/// secondary key = number of edges.  Transitivity is NOT covered here.
+#[kani::proof]
+#[kani::unwind(34)]
+fn c04_sort_cmp_keys_pair_e1() {
+    use std::cmp::Ordering::*;
+    let pseg = zseg_with_len(1);
+    let mut id0 = [0u8; 32];
+    let mut id1 = [0u8; 32];
+    id0[0] = kani::any();
+    id1[0] = kani::any();
+    let segs = [
+        InputSegment::NonCore(&pseg, SegmentID::from(id0)),
+        InputSegment::Core(&pseg, SegmentID::from(id1)),
+        InputSegment::NonCore(&pseg, SegmentID::from(id0)),
+    ];
+    let mut a = any_solution(&segs);
+    let mut b = any_solution(&segs);
+    let na: usize = kani::any();
+    let nb: usize = kani::any();
+    kani::assume(na <= 1 && nb <= 1);
+    a.edges.truncate(na);
+    b.edges.truncate(nb);
+    let ab = sort_cmp(&a, &b);
+    let ba = sort_cmp(&b, &a);
+    assert!(sort_cmp(&a, &a) == Equal, "C04.order: comparator is reflexive");
+    assert!(ab == ba.reverse(), "C04.order: comparator is antisymmetric (cmp(a,b) == reverse(cmp(b,a)))");
+    if a.cost < b.cost {
+        assert!(ab == Less, "C04.order: primary key is the cost");
+    }
+    if a.cost == b.cost && a.edges.len() < b.edges.len() {
+        assert!(ab == Less, "C04.order: secondary key is the number of edges");
+    }
+    kani::cover!(ab == Less && a.cost == b.cost && a.edges.len() == b.edges.len(), "tie broken by edge attributes");
+    kani::cover!(ab == Equal && a.edges.len() == 1, "equal one-edge solutions");
+    kani::cover!(ab == Greater, "greater reachable");
+}
+
 /// Order laws on symbolic triples of solutions with <= 3 edges each (edges: symbolic weight,
 /// shortcut index, peer; segment ids: three symbolic ids differing in a symbolic first byte).
 #[kani::proof]
